@@ -49,6 +49,26 @@ class ArmDomain(FactDomain):
             self._il = Inliner(self.fi)
         return self._il
 
+    def while_may_skip(self, node, state):
+        if True:
+            # `k = 0 ... while k < self.num_dof:` is the same at-least-once loop as `for k in range(self.num_dof)`
+            t = node.test
+            if not (isinstance(t, ast.Compare) and len(t.ops) == 1):
+                return True
+            l, op, r = t.left, t.ops[0], t.comparators[0]
+            if isinstance(op, ast.Gt):
+                l, r = r, l
+            elif not isinstance(op, ast.Lt):
+                return True
+            bound = src(r)
+            if not (isinstance(l, ast.Name) and ('num_dof' in bound or 'len(self._theta)' in bound)):
+                return True
+            before = [a for a in ast.walk(self.fi.node) if isinstance(a, (ast.Assign, ast.AugAssign, ast.For)) and a.lineno < node.lineno
+                      and any(isinstance(x, ast.Name) and x.id == l.id and isinstance(x.ctx, ast.Store)
+                              for tt in (a.targets if isinstance(a, ast.Assign) else [a.target]) for x in ast.walk(tt))]
+            return not (len(before) == 1 and isinstance(before[0], ast.Assign) and isinstance(before[0].value, ast.Constant)
+                        and before[0].value.value == 0)
+
     def loop_may_skip(self, node, state):
         it = src(node.iter)
         if it.startswith('range(') and ('num_dof' in it or 'len(self._theta)' in it):
